@@ -176,4 +176,8 @@ theorem captured_limiter_counterexample :
 /-- regenerated from the source on every run: HandleCall validates the caller only after taking the policy read lock -/
 theorem gen_validation_under_lock : Gen.handleCallValidatesUnderLock = true := by decide
 
+/-- the installed policy shares no memory with the value the caller passed (AllowedIPs is copied), and a refused
+    call releases the read-lock the drain waits for -/
+theorem gen_policy_value_copied : (Gen.updatePolicyCopiesAllowedIPs && Gen.handleCallUnlocksOnRefusal) = true := by decide
+
 end Props.C16
